@@ -63,6 +63,9 @@ func main() {
 			return rep.Finish(*verif)
 		}
 		rule(prog, rep)
+		if rep.Tier == "thorough" && opSweepScope[*prop] != nil {
+			operatorSweep(prog, rep, rule)
+		}
 		return rep.Finish(*verif)
 	}()
 	os.Exit(code)
